@@ -14,12 +14,16 @@ Diag(cls, what, sig, detail) ==
     PrintT("DIAG " \o ToJson([l |-> l, cls |-> cls, what |-> what, sig |-> sig, detail |-> detail]))
 Skip == l' = l + 1 /\ phase' = 0 /\ py' = <<>> /\ pcb' = <<>> /\ pcr' = <<>>
 W == E.w
-H == IF W > 0 THEN Len(E.y) \div W ELSE 0
+(* "ph": the height the picture's format declares; "lens" events (very large pictures) carry lengths instead of planes *)
+YL == IF Has("y") THEN Len(E.y) ELSE E.ylen
+CbL == IF Has("cb") THEN Len(E.cb) ELSE E.cblen
+CrL == IF Has("cr") THEN Len(E.cr) ELSE E.crlen
+H == IF Has("ph") THEN E.ph ELSE IF W > 0 THEN YL \div W ELSE 0
 CW == ChromaW(W)
 CH == ChromaH(H)
 (* Pipeline lemma instance: the planes satisfy what deblock() and yuv420_to_rgba() require *)
-ShapesOk == /\ W >= 1 /\ H >= 1 /\ Len(E.y) = W * H
-            /\ E.cw = CW /\ Len(E.cb) = CW * CH /\ Len(E.cr) = CW * CH
+ShapesOk == /\ W >= 1 /\ H >= 1 /\ YL = W * H
+            /\ E.cw = CW /\ CbL = CW * CH /\ CrL = CW * CH
 Other == phase = 0 /\ E.op # "post" /\ Skip
 Start ==
     /\ phase = 0 /\ E.op = "post"
@@ -27,12 +31,12 @@ Start ==
        THEN Diag("IMPL", "post-processing-no-return", "post-processing-panic", [ret |-> E.ret]) /\ Skip
        ELSE IF E.rc # "ok" THEN Diag("HARNESS", "post-failed", "harness", E.ret) /\ Skip
        ELSE IF ~ShapesOk
-       THEN Diag("IMPL", "plane-shapes", "decoded-plane-shapes", [w |-> W, ylen |-> Len(E.y), cw |-> E.cw, clen |-> Len(E.cb)]) /\ Skip
+       THEN Diag("IMPL", "plane-shapes", "decoded-plane-shapes", [w |-> W, h |-> H, ylen |-> YL, cw |-> E.cw, clen |-> CbL]) /\ Skip
        ELSE IF E.q \notin 1..31 \/ E.s # TableJ2[E.q]
        THEN Diag("IMPL", "strength-for-quantizer", "strength-table", [q |-> E.q, s |-> E.s]) /\ Skip
-       ELSE IF E.len # 4 * W * H \/ Len(E.out) # W * H
+       ELSE IF E.len # 4 * W * H \/ (Has("out") /\ Len(E.out) # W * H)
        THEN Diag("IMPL", "rgba-length", "rgba-length", [w |-> W, h |-> H, len |-> E.len]) /\ Skip
-       ELSE IF ~Has("full") THEN Skip
+       ELSE IF ~Has("full") \/ ~Has("out") THEN Skip
        ELSE /\ py' = HPass(E.y, W, H, E.s) /\ pcb' = HPass(E.cb, CW, CH, E.s) /\ pcr' = HPass(E.cr, CW, CH, E.s)
             /\ phase' = 1 /\ l' = l
 Vertical ==
